@@ -66,7 +66,7 @@ func hashTree(repo string, conc bool) string {
 			}
 			return nil
 		}
-		if strings.HasSuffix(p, ".go") || strings.HasSuffix(p, "go.mod") {
+		if strings.HasSuffix(p, ".go") || strings.HasSuffix(p, "go.mod") || strings.HasSuffix(p, ".go.txt") {
 			files = append(files, p)
 		}
 		return nil
